@@ -7,6 +7,7 @@ T: long random chains/ranges, execution traces validated against BlockParser.tla
 import os
 import random
 import re
+import struct
 
 from lib import btc, chains, datadir, ref, run, tracecheck
 
@@ -217,6 +218,36 @@ def main(ck, tier, w):
                 ck.violation('index with heights %d..%d, csvdump --start %d --end %s: exit %d, dump folder %s, "processed up to" %s; files differing from the rows of '
                              '%d..%d: %s' % (H, H + 5, s_, e_, r.rc, r.listing, chains.processed_upto(r.stdout), lo, hi, bad),
                              {'first_height': H, 'start': s_, 'end': e_, 'observed': r.brief(), 'tags': []})
+
+    # --- index keys shaped like proof-of-work hashes (many leading zero bytes as displayed = trailing zero bytes as stored), which
+    # hashes of generated headers never are.  The keys and the header copies inside the records are made up here (each record's
+    # prev field names the key of the height below), the blk file holds ordinary blocks: without --verify only the index decides
+    # which block is read for a height.  Above the tip: a header-only record and a stored block on top of it.
+    for nz, variant in ((8, 0), (9, 1), (12, 2)):
+        pr = random.Random('%d-pow-%d' % (run.seed(), nz))
+        pblocks = chains.std_chain(12, 'bitcoin')
+        keys = [pr.randbytes(32 - (nz if h >= 6 or variant == 2 else 4)) + b'\0' * (nz if h >= 6 or variant == 2 else 4) for h in range(12)]
+        pd_ = datadir.DataDir(w.sub('dd'), 'bitcoin')
+        for h, b in enumerate(pblocks):
+            fake_hdr = struct.pack('<I', 0x20000000) + (keys[h - 1] if h else b'\0' * 32) + pr.randbytes(44)
+            if h == 10:
+                pd_.record(fake_hdr, h, btc.VALID_TREE, 0, key=keys[h])
+            else:
+                off = pd_.place(h % 2, b['raw'])
+                pd_.record(fake_hdr, h, datadir.ACTIVE if h < 10 else (btc.VALID_TX | btc.HAVE_DATA), 1, h % 2, off, key=keys[h])
+        pd_.core_extras()
+        pd_.write()
+        for s_, e_ in ((None, None), (3, 8), (6, None)):
+            r = run.run_parser(pd_.path, 'csvdump', dump=w.mk('out'), start=s_, end=e_)
+            lo, hi = s_ or 0, min(e_ if e_ is not None else 9, 9)
+            exp, _ = ref.csv_expected([(h, pblocks[h]) for h in range(lo, hi + 1)], 'bitcoin')
+            ck.evals()
+            ck.distinct(('pow-keys', nz, s_, e_))
+            bad = [f for f in exp if r.files.get('%s-%d-%d.csv' % (f, lo, hi)) != exp[f]]
+            if r.rc != 0 or bad:
+                ck.violation('index whose keys end in %d zero bytes (proof-of-work shaped), tip 9, header-only record at 10, stored block at 11; csvdump --start %s --end %s: '
+                             'exit %d, dump folder %s, files differing from heights %d..%d: %s' % (nz, s_, e_, r.rc, r.listing, lo, hi, bad),
+                             {'zero_bytes': nz, 'start': s_, 'end': e_, 'observed': r.brief(), 'tags': []})
 
     # --- T: long runs, traces validated against the specification
     rng = random.Random(run.seed() * 7919 + 2)
